@@ -1,16 +1,16 @@
 SPECIFICATION MCSpec
 CONSTANTS
   Cases <- MCCases
-  KFSites = {"filter_found", "trymap_override", "maperr_drop"}
-  Fam = "lrec"
-  MaxSize = 1
-  Alphabet = {"a", "+"}
-  MaxLen = 5
-  Kinds = {"str"}
+  KFSites = {"filter_found", "trymap_override", "mapped_span"}
+  Fam = "spng"
+  MaxSize = 3
+  Alphabet = {"a", "b"}
+  MaxLen = 3
+  Kinds = {"mapped", "mstream"}
   Etys = {"rich"}
-  Modes = {"E", "C"}
+  Modes = {"E"}
   Chunk = 0
   NChunks = 1
-INVARIANTS Replay InspConsistent CursorInBounds NoPanic StepBound
+INVARIANTS Replay RetRefines InspConsistent CursorInBounds ResultContract FurthestFailure NoPanic StepBound SpansWellFormed
 CHECK_DEADLOCK FALSE
 ALIAS Brief
